@@ -5,6 +5,10 @@ import (
 	"math/rand/v2"
 	"strings"
 
+	"github.com/xjslang/xjs/lexer"
+	"github.com/xjslang/xjs/parser"
+	"github.com/xjslang/xjs/token"
+
 	"verif/fw"
 	"verif/gen"
 	"verif/reflex"
@@ -57,10 +61,30 @@ func sigKey(it reflex.Item) string {
 	return it.Text
 }
 
+func parseReissue(src string) ParseOut {
+	lb := lexer.NewBuilder()
+	lb.UseTokenInterceptor(func(l *lexer.Lexer, next func() token.Token) token.Token {
+		tok := next()
+		if tok.Type == token.EOF {
+			return tok
+		}
+		nt := l.NewTokenAt(tok.Type, tok.Literal, tok.Start.Line, tok.Start.Column)
+		nt.End = tok.End
+		return nt
+	})
+	p := parser.NewBuilder(lb).Build(src)
+	prog, err := p.ParseProgram()
+	return ParseOut{Prog: prog, Err: err, Errors: p.Errors(), P: p}
+}
+
 func runC15(t *fw.T) {
 	r := t.Rand()
 	o := gen.SynOpts{ExprDepth: 1 + r.IntN(3), StmtDepth: 1 + r.IntN(4), MaxStmts: 1 + r.IntN(4), Heavy: r.IntN(2) == 0}
 	prog := gen.NewSyn(r, o).Program()
+	if r.IntN(40) == 0 {
+		prog.Kids = nil // a source that consists of comments and blank lines only: its statement list is empty
+		t.Count("comment_only_sources", 1)
+	}
 	kinds := map[string]bool{}
 	lay := gen.Layout{Semi: r.Float64(), Space: 1, StmtNL: 0.9, StmtDecor: 0.3 + r.Float64()*0.5, CRLF: r.IntN(6) == 0, LeadingBlank: true,
 		Payload: func(r *rand.Rand, serial int) string {
@@ -78,7 +102,21 @@ func runC15(t *fw.T) {
 	}
 	wit := func() map[string]any { return map[string]any{"source": rd.Src} }
 	var po, pp ParseOut
-	if !t.Guard("parse", wit, func() { po = parse(rd.Src, Mode{}); pp = parse(plain.Src, Mode{}) }) {
+	// a third of the sources is parsed through a token-rewriting plugin: a token interceptor that obtains each token from
+	// next() and re-issues it with the lexer's own NewTokenAt (what a plugin does that retypes or merges tokens). The
+	// re-issued token is the same token, so everything the property says about comments must hold unchanged.
+	reissue := r.IntN(3) == 0
+	if reissue {
+		t.Count("sources_parsed_through_a_token_reissuing_plugin", 1)
+	}
+	if !t.Guard("parse", wit, func() {
+		if reissue {
+			po = parseReissue(rd.Src)
+		} else {
+			po = parse(rd.Src, Mode{})
+		}
+		pp = parse(plain.Src, Mode{})
+	}) {
 		return
 	}
 	if po.Err != nil || pp.Err != nil {
